@@ -35,6 +35,13 @@ type stats struct {
 	// reload-scheduled cache states: lookups executed (with oracles) on an entry flagged for reload,
 	// new states holding an entry flagged needReloadOnAccess / needDelayedReloadPending / ...Ready
 	reloadLookups, stOnAccess, stPending, stReady, stAnyReload atomic.Int64
+	// derived-split part: right-derive splits executed, EpochNotMatch answers rewritten TiKV-like per
+	// order, judged installs of a region id the cache already held, stale PD answers that described
+	// a held region id with the same version and a lower conf version / with a lower version, new
+	// states with a leftover older version of a region id in the ordered index / with a region id
+	// that latestVersions has forgotten although an entry of it is cached
+	rightDerive, enmDerivedFirst, enmDerivedLast, sameIDInstalls atomic.Int64
+	staleLowerConf, staleLowerVer, stLeftover, stForgotten       atomic.Int64
 }
 
 // ---------- alphabet ----------
@@ -48,8 +55,10 @@ type alphaSpec struct {
 	splitLeft                        bool
 	maxBack                          int
 	peers, stores, emptyKey          bool
-	sched                            bool // reload-scheduling letters: sched(k) = OnSendFail(scheduleReload), selm(k) = replica selector sees a stale store epoch
-	noInval                          bool // leave out inval/expire/drop (the reload part: those states are the main plans' business)
+	sched                            bool     // reload-scheduling letters: sched(k) = OnSendFail(scheduleReload), selm(k) = replica selector sees a stale store epoch
+	noInval                          bool     // leave out inval/expire/drop (the reload part: those states are the main plans' business)
+	sendx                            bool     // send with scripted TiKV-like EpochNotMatch answers, derived region first / last
+	lookupKinds                      []string // nil = all point lookup kinds
 }
 
 func genBatches(bounds []int, maxRanges int) [][][2]int {
@@ -79,7 +88,11 @@ func genBatches(bounds []int, maxRanges int) [][][2]int {
 func buildAlphabet(s alphaSpec) []Op {
 	var a []Op
 	// lookups first (simplest), then cache manipulation, then topology, then PD misbehaviour
-	for _, kind := range []string{"try", "locate", "locend", "byid", "byidc", "send"} {
+	kinds := s.lookupKinds
+	if kinds == nil {
+		kinds = []string{"try", "locate", "locend", "byid", "byidc", "send"}
+	}
+	for _, kind := range kinds {
 		for _, k := range s.lookupKeys {
 			a = append(a, Op{Kind: kind, K: k})
 		}
@@ -88,6 +101,13 @@ func buildAlphabet(s alphaSpec) []Op {
 		// (rawkv.ReverseScan); LocateEndKey("") answers the first region.
 		if s.emptyKey && (kind == "try" || kind == "locate") {
 			a = append(a, Op{Kind: kind, K: -1})
+		}
+	}
+	if s.sendx {
+		for _, ord := range []int{enmDerivedFirst, enmDerivedLast} {
+			for _, k := range s.lookupKeys {
+				a = append(a, Op{Kind: "sendx", K: k, Ord: ord})
+			}
 		}
 	}
 	for _, st := range s.rangeStarts {
@@ -162,6 +182,89 @@ func buildAlphabet(s alphaSpec) []Op {
 		a = append(a, Op{Kind: "stale", K: b})
 	}
 	return a
+}
+
+// ---------- generated roots of the derived-split part ----------
+
+type rootDef struct {
+	name, desc string
+	ops        []Op
+	quick      bool // right derive, layouts 1 / 3, with a conf change
+	right13    bool // right derive, layouts 1 / 3
+}
+
+// derivedRoots is the state generator of the derived-split part: the full grid
+//
+//	layout  x  derive side  x  conf change after the split  x  refresh
+//
+// layout: "1" = one region [,+inf) cached, split at c; "3" = regions [,b) [b,d) [d,+inf) all
+// cached, the middle one split at c; "3e" = the same, the LAST one split at e.
+// derive side: right (splitl: the original id stays on the RIGHT half, the left half is a new
+// region - the cached parent then lingers in the ordered index under the parent's start key when
+// the derived region is learned) or left (split).
+// conf change: none, or a peer of the id-keeping half is removed after the split (conf version +1).
+// refresh: none (the cache still holds only the parent), or the parent's TTL has run out and the
+// id-keeping half has been looked up (the cache holds the expired parent AND the derived region).
+// Quick uses the right-derive roots with a conf change of layouts 1 and 3 (4 roots), thorough the
+// whole grid (24).
+func derivedRoots() []rootDef {
+	var out []rootDef
+	type layout struct {
+		name, desc string
+		warm       []Op
+		splitAt    int
+		leftKey    int // a key of the left half (= the parent's first pool key)
+		rightKey   int // a key of the right half
+		quick      bool
+	}
+	s3 := []Op{{Kind: "split", K: 1}, {Kind: "split", K: 3}, {Kind: "range", R: [][2]int{{0, inf}}}}
+	layouts := []layout{
+		{"1", "1 region [,+inf) cached, split at c", []Op{{Kind: "locate", K: 0}}, 2, 0, 2, true},
+		{"3", "3 regions [,b) [b,d) [d,+inf) all cached, [b,d) split at c", s3, 2, 1, 2, true},
+		{"3e", "3 regions [,b) [b,d) [d,+inf) all cached, [d,+inf) split at e", s3, 4, 3, 4, false},
+	}
+	for _, l := range layouts {
+		for _, right := range []bool{true, false} {
+			for _, conf := range []bool{false, true} {
+				for _, refresh := range []bool{false, true} {
+					r := rootDef{quick: l.quick && right && conf, right13: l.quick && right}
+					ops := append([]Op{}, l.warm...)
+					keeper, side, kind := l.leftKey, "left", "split"
+					if right {
+						keeper, side, kind = l.rightKey, "right", "splitl"
+					}
+					ops = append(ops, Op{Kind: kind, K: l.splitAt})
+					r.name = "derived-" + l.name + "-" + side
+					r.desc = l.desc + ", original id stays on the " + side + " half"
+					if conf {
+						ops = append(ops, Op{Kind: "rmpeer", K: keeper})
+						r.name += "-conf"
+						r.desc += "; then a peer of the id-keeping half is removed"
+					}
+					if refresh {
+						ops = append(ops, Op{Kind: "expire", K: l.leftKey}, Op{Kind: "locate", K: keeper})
+						r.name += "-refreshed"
+						r.desc += "; then the cached parent expires and the id-keeping half is looked up"
+					}
+					r.ops = ops
+					out = append(out, r)
+				}
+			}
+		}
+	}
+	return out
+}
+
+// derivedRootNames: "quick" = right derive + conf change, layouts 1 and 3 (4 roots); "right13" = right
+// derive, layouts 1 and 3 (8 roots); "all" = the whole grid (24 roots).
+func derivedRootNames(set string) []string {
+	var n []string
+	for _, r := range derivedRoots() {
+		if set == "all" || (set == "right13" && r.right13) || (set == "quick" && r.quick) {
+			n = append(n, r.name)
+		}
+	}
+	return n
 }
 
 // ---------- search ----------
@@ -584,6 +687,19 @@ func main() {
 	reloadFull := reload
 	reloadFull.rangeStarts, reloadFull.batchBounds, reloadFull.maxBack, reloadFull.stores, reloadFull.splitLeft = []int{-1, 0, 1, 2, 3, 4}, all, 2, true, true
 	warm := []string{"warm3", "warm3-reload-scheduled"}
+	// The derived-split part (see derivedRoots): its own search from generated roots in which a warm
+	// region has just been split - by default with the ORIGINAL id staying on the RIGHT half (splitl,
+	// TiKV's right derive) - so that the chains  conf change / scripted EpochNotMatch answer in either
+	// order / eviction of the leftover older version by an intersecting insert or by TTL GC / stale PD
+	// answer with the same version and a lower conf version / reload  fit into the depth. Every point
+	// lookup API incl. sendx, ranges from a, inval / expire / gc / drop, every topology letter incl. both
+	// split kinds and peer changes, stale answers.
+	derived := alphaSpec{splitKeys: all, lookupKeys: all, cacheKeys: all, rangeStarts: []int{0}, groupMax: 0, maxBatch: 0,
+		maxBack: 1, peers: true, splitLeft: true, sendx: true, lookupKinds: []string{"locate", "byid", "send"}}
+	derivedMore := derived
+	derivedMore.lookupKinds = []string{"locate", "locend", "byid", "byidc", "send"}
+	derivedFull := derived
+	derivedFull.rangeStarts, derivedFull.maxBack, derivedFull.stores, derivedFull.sched, derivedFull.lookupKinds = all, 2, true, true, nil
 	var plans []plan
 	if run.Quick() {
 		mc := medium
@@ -595,6 +711,7 @@ func main() {
 			{"codec/medium-no-store-peer-ops", codecOf(base), mc, 3, nil},
 			{"plain/reload-scheduled", base, reload, 4, warm},
 			{"codec/reload-scheduled-no-peer-ops", codecOf(base), rc, 3, warm},
+			{"plain/derived-split", base, derived, 4, derivedRootNames("quick")},
 		}
 	} else {
 		plans = []plan{
@@ -605,6 +722,11 @@ func main() {
 			{"plain/reload-scheduled", base, reload, 5, warm},
 			{"plain/reload-scheduled-full", fullCfg, reloadFull, 4, warm},
 			{"codec/reload-scheduled", codecOf(base), reload, 4, warm},
+			{"plain/derived-split", base, derivedMore, 5, derivedRootNames("right13")},
+			{"plain/derived-split-grid", base, derivedMore, 4, derivedRootNames("all")},
+			{"plain/derived-split-full", fullCfg, derivedFull, 3, derivedRootNames("all")},
+			{"codec/derived-split", codecOf(base), derived, 4, derivedRootNames("quick")},
+			{"plain/derived-split-from-warm", base, derived, 5, []string{"warm1", "warm3"}},
 		}
 	}
 	s3 := []Op{{Kind: "split", K: 1}, {Kind: "split", K: 3}}
@@ -617,6 +739,17 @@ func main() {
 		"cold3":                  {s3, "3 regions [,b) [b,d) [d,+inf), cold cache"},
 		"warm3":                  {w3, "3 regions [,b) [b,d) [d,+inf), all cached (LocateKeyRange(a,+inf))"},
 		"warm3-reload-scheduled": {append(append([]Op{}, w3...), Op{Kind: "sched", K: 0}, Op{Kind: "selm", K: 2}, Op{Kind: "gc"}), "3 regions all cached; OnSendFail(scheduleReload) on [,b) -> needReloadOnAccess and store 1 epoch stale; replica selector on [b,d) + one gc round -> needDelayedReloadReady"},
+	}
+
+	rootSets["warm1"] = struct {
+		ops  []Op
+		desc string
+	}{[]Op{{Kind: "locate", K: 0}}, "1 region [,+inf), cached (LocateKey(a))"}
+	for _, r := range derivedRoots() {
+		rootSets[r.name] = struct {
+			ops  []Op
+			desc string
+		}{r.ops, r.desc}
 	}
 
 	workers := runtime.NumCPU()
@@ -659,10 +792,14 @@ func main() {
 			outcomes: outcomes, samples: samples, workers: workers, roots: roots}
 		fmt.Fprintf(os.Stderr, "c09 %s: alphabet %d ops, depth %d, %d workers\n", p.name, len(x.alpha), p.depth, workers)
 		div0, rl0 := st.diverged.Load(), st.reloadLookups.Load()
+		rd0, e10, e20, sc0, lo0 := st.rightDerive.Load(), st.enmDerivedFirst.Load(), st.enmDerivedLast.Load(), st.staleLowerConf.Load(), st.stLeftover.Load()
 		x.search(mvccs)
 		states = len(global)
 		bounds[p.name] = map[string]any{"depth_requested": p.depth, "depth_completed": x.maxDepth, "alphabet_ops": len(x.alpha),
 			"new_states_per_depth": x.perDepth, "roots": rootDesc, "reload_scheduling_letters": p.spec.sched,
+			"scripted_epoch_not_match_letters": p.spec.sendx, "right_derive_split_letters": p.spec.splitLeft,
+			"right_derive_splits": st.rightDerive.Load() - rd0, "epoch_not_match_rewritten_derived_first": st.enmDerivedFirst.Load() - e10, "epoch_not_match_rewritten_derived_last": st.enmDerivedLast.Load() - e20,
+			"stale_pd_answers_same_version_lower_conf_version_than_cached": st.staleLowerConf.Load() - sc0, "states_with_leftover_older_version": st.stLeftover.Load() - lo0,
 			"lookups_on_reload_scheduled_entry": st.reloadLookups.Load() - rl0, "replay_divergences": st.diverged.Load() - div0, "key_pool": pool, "max_regions": cfg.maxRegions, "stores": 3, "stale_tables_back": cfg.maxBack}
 	}
 
@@ -720,27 +857,38 @@ func main() {
 			"states = distinct canonical (ground truth, cache dump, armed stale answer, older tables); non-trivial = cluster has >= 2 regions and the cache holds >= 1 entry; " +
 			"every new state also gets the terminal convergence check (Get of every pool key must be served by the true leader); " +
 			"reload-scheduled cache states are letters of every alphabet: sched(k) = GetTiKVRPCContext + OnSendFail(scheduleReload=true) on the cached entry of k, selm(k) = replica selector of a mixed replica read on an entry with a stale store epoch (-> needDelayedReloadPending), gc = one GC round (-> needDelayedReloadReady); " +
-			"lookups_on_reload_scheduled_entry counts judged lookups that had to consult a usable entry flagged for reload, states_with_* count new states holding such an entry; a violation of such a lookup carries the key suffix :on-reload-scheduled-entry",
-		"bounds":                                  bounds,
-		"distinct_outcomes":                       len(outList),
-		"outcome_counts":                          outcomes,
-		"duplicate_successors":                    st.dups.Load(),
-		"stale_pd_answers_served":                 st.staleServed.Load(),
-		"convergence_states":                      st.convChecked.Load(),
-		"convergence_gets_served":                 st.convServed.Load(),
-		"convergence_gets_skipped":                st.convSkipped.Load(),
-		"convergence_rounds_total":                st.convRounds.Load(),
-		"replay_divergences":                      st.diverged.Load(),
-		"instances_lost_to_panic":                 st.deadInstances.Load(),
-		"group_unknown_version":                   st.groupUnknown.Load(),
-		"mock_batchscan_divergence":               st.mockBatchScanDiverged.Load(),
-		"lookups_on_reload_scheduled_entry":       st.reloadLookups.Load(),
-		"states_with_reload_scheduled_entry":      st.stAnyReload.Load(),
-		"states_with_need_reload_on_access":       st.stOnAccess.Load(),
-		"states_with_need_delayed_reload_pending": st.stPending.Load(),
-		"states_with_need_delayed_reload_ready":   st.stReady.Load(),
-		"violation_counts":                        vcount,
-		"samples":                                 samples.List(),
+			"lookups_on_reload_scheduled_entry counts judged lookups that had to consult a usable entry flagged for reload, states_with_* count new states holding such an entry; a violation of such a lookup carries the key suffix :on-reload-scheduled-entry; " +
+			"derived-split plans: BFS from GENERATED roots = grid layout {1 region split at c, middle of 3 regions split at c, last of 3 regions split at e} x derive side {right: original id stays on the right half (splitl), left} x {no conf change, a peer of the id-keeping half removed} x {cache holds only the parent, parent expired and id-keeping half looked up} (quick: the 4 right-derive roots with a conf change of the first two layouts, depth 4; thorough: the 8 right-derive roots of the first two layouts at depth 5, all 24 at depth 4 and at depth 3 with the full alphabet, codec mode at depth 4, and depth 5 from the plain warm roots), " +
+			"alphabet = every point lookup incl. sendx(k,order) = send whose EpochNotMatch answers are rewritten TiKV-like (id-keeping region + all current regions overlapping the requested version's range, id-keeping region first / last), ranges from a, inval/expire/gc/drop, split/splitl/merge/leader/rmpeer/addpeer on every pool key, one-shot stale PD answers; " +
+			"the no-regress oracle judges every installed entry of a region id the cache already held against the newest epoch among the HELD ENTRIES (version, then conf version), not against latestVersions (same_region_installs_judged)",
+		"bounds":                                                       bounds,
+		"distinct_outcomes":                                            len(outList),
+		"outcome_counts":                                               outcomes,
+		"duplicate_successors":                                         st.dups.Load(),
+		"stale_pd_answers_served":                                      st.staleServed.Load(),
+		"convergence_states":                                           st.convChecked.Load(),
+		"convergence_gets_served":                                      st.convServed.Load(),
+		"convergence_gets_skipped":                                     st.convSkipped.Load(),
+		"convergence_rounds_total":                                     st.convRounds.Load(),
+		"replay_divergences":                                           st.diverged.Load(),
+		"instances_lost_to_panic":                                      st.deadInstances.Load(),
+		"group_unknown_version":                                        st.groupUnknown.Load(),
+		"mock_batchscan_divergence":                                    st.mockBatchScanDiverged.Load(),
+		"lookups_on_reload_scheduled_entry":                            st.reloadLookups.Load(),
+		"states_with_reload_scheduled_entry":                           st.stAnyReload.Load(),
+		"states_with_need_reload_on_access":                            st.stOnAccess.Load(),
+		"states_with_need_delayed_reload_pending":                      st.stPending.Load(),
+		"states_with_need_delayed_reload_ready":                        st.stReady.Load(),
+		"right_derive_splits":                                          st.rightDerive.Load(),
+		"epoch_not_match_rewritten_derived_first":                      st.enmDerivedFirst.Load(),
+		"epoch_not_match_rewritten_derived_last":                       st.enmDerivedLast.Load(),
+		"same_region_installs_judged":                                  st.sameIDInstalls.Load(),
+		"stale_pd_answers_lower_version_than_cached_same_region":       st.staleLowerVer.Load(),
+		"stale_pd_answers_same_version_lower_conf_version_than_cached": st.staleLowerConf.Load(),
+		"states_with_leftover_older_version_of_a_region":               st.stLeftover.Load(),
+		"states_with_cached_region_forgotten_by_latest_versions":       st.stForgotten.Load(),
+		"violation_counts":                                             vcount,
+		"samples":                                                      samples.List(),
 	}
 	pprof.StopCPUProfile()
 	run.Finish(cov, []string{
@@ -754,5 +902,7 @@ func main() {
 		"merge keeps the left region's id (mock limitation); GroupSortedMutationsByRegion (txnkv/transaction, unexported) is not driven",
 		"reload scheduling: sched(k) is the single OnSendFail(scheduleReload=true, err) call the sender makes when its failed-store set covers the region (earlier failures of the same sender may have hit other regions); selm(k) runs newReplicaSelector + nextForReplicaReadMixed and drops the request before buildRPCContext (the randomly chosen target is discarded, only the deterministic flag / invalidation effects stay); the forwarding-proxy exhaustion path (enableForwarding) sets the same needReloadOnAccess flag and is not driven separately",
 		"a lookup violation gets the suffix :on-reload-scheduled-entry only when the call consumed no stale PD answer (a stale answer keeps the key ...:after-stale-pd-answer)",
+		"splitl(k) = Cluster.Split followed by swapping the two halves' ranges: the original region id (and its peers) keeps the RIGHT half, the new id gets the left half (TiKV's right derive); sendx rewrites only the CurrentRegions list of an EpochNotMatch answer the mock store gives anyway (the mock compares the whole epoch, TiKV only the version for reads: a conf-only difference is answered EpochNotMatch with the id-keeping region alone); the list names all current regions overlapping the old range (a batch split's answer), TiKV's single-split answer names the region and one sibling",
+		"regress:region-id:* keys: 'held' = entries of the ordered index and of the by-version map in the dump taken at the previous PD query / op end, valid or not (an invalidated entry still blocks older descriptions in the unchanged code through latestVersions)",
 	})
 }
